@@ -72,6 +72,25 @@ func deriveFacts(st *fstate, fs []*Term) []*Term {
 				add(fact("member", x, xs))
 			}
 		case "eq", "neq":
+			// "s consists of exactly n sep-separated segments", however it was counted
+			if f.S == "eq" {
+				for i := 0; i < 2; i++ {
+					l, c := f.A[i], f.A[1-i]
+					if c.K != "const" {
+						continue
+					}
+					var n int
+					if _, err := fmt.Sscan(c.S, &n); err != nil {
+						continue
+					}
+					if l.K == "call" && l.S == "len" && len(l.A) == 1 && l.A[0].K == "call" && l.A[0].S == "strings.Split" && len(l.A[0].A) == 2 {
+						add(fact("segs", l.A[0].A[0], l.A[0].A[1], mk("const", fmt.Sprint(n))))
+					}
+					if l.K == "call" && l.S == "strings.Count" && len(l.A) == 2 {
+						add(fact("segs", l.A[0], l.A[1], mk("const", fmt.Sprint(n+1))))
+					}
+				}
+			}
 			// a length that differs from 0..n is greater than n
 			if f.S == "neq" {
 				for i := 0; i < 2; i++ {
